@@ -30,7 +30,7 @@ def names():
     return _NAMES
 
 
-def build(node, H, salt: int, eolstr: str, strip_meta=False, late_meta=False):
+def build(node, H, salt: int, eolstr: str, strip_meta=False, late_meta=0, group=False):
     """gamma: abstract node -> real object (None for a stripped metadata node)."""
     k, i = node["k"], node["id"]
     if k == "E":
@@ -59,8 +59,15 @@ def build(node, H, salt: int, eolstr: str, strip_meta=False, late_meta=False):
         if m == 3:
             return H.HTMLDependency(f"lazy{i}", "0.1", head=gamma.Tfy(lambda: H.tags.title("t")))
         return H.head_content(H.tags.title(str(i)))
-    kids = [build(c, H, salt, eolstr, strip_meta, late_meta) for c in node["c"]]
+    kids = [build(c, H, salt, eolstr, strip_meta, late_meta, group) for c in node["c"]]
     kids = [x for x in kids if x is not None] if strip_meta else kids
+    if group and len(kids) >= 2 and (i + salt) % 2 == 0:
+        # gamma option: a run of adjacent siblings arrives as ONE tagifiable object whose expansion is a TagList of
+        # them (spliced in place by tagify(): the same tree, so the same markup)
+        a = (i * 3 + salt) % (len(kids) - 1)
+        b = min(len(kids), a + 2 + (i + salt) % 2)
+        run = kids[a:b]
+        kids = kids[:a] + [gamma.Tfy(lambda run=run: H.TagList(*run).tagify())] + kids[b:]
     if k == "L":
         return H.TagList(*kids)
     nm = names()
@@ -72,6 +79,18 @@ def build(node, H, salt: int, eolstr: str, strip_meta=False, late_meta=False):
         name = nm["nonvoid"][(i * 7 + salt) % len(nm["nonvoid"])]
         if (i + salt) % 6 == 0:
             name = ["pre", "textarea", "listing", "title", "option", "p"][(i * 5 + salt) % 6]   # names parsers treat specially
+    if late_meta == 2 and not strip_meta:
+        # gamma option: children arrive one by one inside a `with tag:` block; metadata nodes are DISPLAYED there
+        import sys
+        t = H.Tag(name, {"i": str(i)}, _add_ws=(k in ("B", "V")))
+        with t:          # (one block: a tag's context cannot be entered a second time)
+            for x, c in zip(kids, node["c"]):
+                # (a displayed _repr_html_ object is stored as HTML(), which is a different kind of child: not displayed)
+                if c["k"] == "M" or (c["k"] != "R" and (i + len(kids)) % 2):
+                    sys.displayhook(x)
+                else:
+                    t.append(x)
+        return t
     if late_meta and not strip_meta:
         # gamma option: metadata nodes arrive after construction, through the child list itself
         t = H.Tag(name, {"i": str(i)}, *[x for x, c in zip(kids, node["c"]) if c["k"] != "M"], _add_ws=(k in ("B", "V")))
@@ -238,6 +257,12 @@ class _LayoutBase(Prop):
                 eol = rnd.choice(["\r\n", "\ue003", " | ", "\t"] + ([] if has_eol_tail else [""]))
             gens.append({"kind": "render", "tree": t, "indent": rnd.randint(0, 5), "eol": eol,
                          "addws": (rnd.random() < 0.8) if t["k"] == "L" else True, "salt": rnd.randrange(1000)})
+        # the caller's own <body> (block or inline) as the sole content of an HTMLDocument
+        for j in range(40 if tier == "quick" else 800):
+            t = self.rand_tree(rnd, rnd.choice([6, 15]), rnd.choice([3, 5]))
+            if t["k"] in "BI":
+                t["name"] = "body"
+                gens.append({"kind": "render", "tree": t, "indent": 1, "eol": "\n", "addws": True, "salt": rnd.randrange(1000) * 4, "how": "docbody"})
         # elements whose content parsers treat specially (a line feed right after <pre> / <textarea> is dropped by a
         # parser - the renderer must still write exactly the content): sole text child, first of two, inside a block
         nd = lambda k, i, c=(), pre=(), tail=(), name=None: {"k": k, "id": i, "c": list(c), "pre": [list(x) for x in pre],
@@ -257,8 +282,30 @@ class _LayoutBase(Prop):
         H = _lib()
         t = norm_tree(g["tree"])
         eol = g["eol"]
-        obj = build(t, H, g.get("salt", 0), eol, late_meta=g.get("salt", 0) % 4 == 3)
-        obj0 = build(t, H, g.get("salt", 0), eol, strip_meta=True)
+        import sys
+        salt = g.get("salt", 0)
+        late = 1 if salt % 4 == 3 else 2 if salt % 8 == 5 else 0
+        group = salt % 4 == 2
+        saved_hook = sys.displayhook
+        sys.displayhook = lambda value: None          # `with tag:` hands the finished tag to the enclosing hook
+        try:
+            obj = build(t, H, salt, eol, late_meta=late, group=group)
+            obj0 = build(t, H, salt, eol, strip_meta=True, group=group)
+        finally:
+            sys.displayhook = saved_hook
+        if group:
+            obj, obj0 = obj.tagify(), obj0.tagify()
+        if g.get("how") == "docbody":
+            # the tree is the caller's own <body>, sole content of an HTMLDocument: its markup sits at indent 1
+            def body_of(o):
+                html = H.HTMLDocument(o).render()["html"]
+                return html[html.index("  <body"): html.index("</body>") + len("</body>")]
+            try:
+                out, out0 = body_of(obj), body_of(obj0)
+            except RuntimeError:
+                return None      # a dependency whose head holds an un-expanded object cannot be hoisted: not a layout case
+            return {"k": "render", "tree": t, "indent": 1, "eol": True, "addws": True,
+                    "toks": scan(out, "\n"), "toks0": scan(out0, "\n"), "strSame": True, "gen": g}
         out = render(obj, H, g["indent"], eol, g["addws"])
         out0 = render(obj0, H, g["indent"], eol, g["addws"])
         # the other string views (str / repr / _repr_html_ / render) with and without the metadata nodes
